@@ -65,7 +65,7 @@ M("C05", "options_reset_only_on_success", "args/default_args_parser.py",
   "        arguments = OrderedDict()")
 M("C05", "multi_default_shared", "api/args/args.py",
   "            if not isinstance(value, list):\n                value = [value]\n\n            for i, v in enumerate(value):\n                value[i] = option.parse(v)",
-  "            if not isinstance(value, list):\n                value = [value]\n            option.default.extend(value)\n\n            for i, v in enumerate(value):\n                value[i] = option.parse(v)")
+  "            if not isinstance(value, list):\n                value = [value]\n            option._default.extend(value)\n\n            for i, v in enumerate(value):\n                value[i] = option.parse(v)")
 
 # ---- C06 ------------------------------------------------------------------------------------
 M("C06", "copt_insert_before_alias_check", "api/args/format/args_format_builder.py",
@@ -177,11 +177,13 @@ M("C19", "exception_swallowed", "ui/components/progress_indicator.py",
 
 # ---- C20 ------------------------------------------------------------------------------------
 M("C20", "empty_source_keyerror", "ui/components/exception_trace.py",
-  "                if current_type is None:\n                    # The source is empty (or could not be read)\n                    current_type = self.TOKEN_DEFAULT\n\n", "")
+  "                if current_type is None:\n                    # The source is empty (or could not be read)\n                    current_type = self.TOKEN_DEFAULT\n\n", "",
+  expect="silent")  # equivalent since fix 998a16b: _styled() returns an empty chunk as it is, whatever its type
 M("C20", "token_error_escapes", "ui/components/exception_trace.py",
   "        except (tokenize.TokenError, SyntaxError):\n            # The source cannot be tokenized", "        except ZeroDivisionError:\n            # The source cannot be tokenized")
 M("C20", "message_markup_unchecked", "ui/components/exception_trace.py",
-  "            _safe_markup(inspector.exception_message)\n", "            inspector.exception_message\n")
+  "        exception_message = _safe_markup(inspector.exception_message)\n        try:\n            exception_message = io.remove_format(exception_message)\n        except ValueError:",
+  "        exception_message = inspector.exception_message\n        try:\n            exception_message = io.remove_format(exception_message)\n        except ZeroDivisionError:")
 M("C20", "marker_off_by_one", "ui/components/exception_trace.py",
   "                if mark_line == i + 1:\n                    snippet = marker", "                if mark_line == i + 2:\n                    snippet = marker")
 M("C20", "numbering_from_zero", "ui/components/exception_trace.py",
@@ -193,7 +195,7 @@ M("C20", "ignore_applies_at_debug", "ui/components/exception_trace.py",
 M("C20", "ignore_never_applies", "ui/components/exception_trace.py",
   "                and re.match(self._ignore, frame.filename)\n                and not io.is_debug()\n", "                and re.match(self._ignore, frame.filename)\n                and io.is_debug()\n")
 M("C20", "message_first_line_only", "ui/components/exception_trace.py",
-  '        ).replace("\\n", "\\n  ")\n', '        ).split("\\n")[0]\n')
+  '        exception_message = exception_message.replace("\\n", "\\n  ")\n', '        exception_message = exception_message.split("\\n")[0]\n')
 M("C20", "simple_prints_class_only", "ui/components/exception_trace.py",
   '                    _safe_markup(str(self._exception), "<error>{}</error>")', '                    self._exception.__class__.__name__')
 M("C20", "ascii_symbols_always", "ui/components/exception_trace.py",
@@ -215,9 +217,10 @@ M("C04", "handled_event_ignored", "api/command/command.py",
 M("C04", "exit_code_from_code_attr", "console_application.py",
   '        if not hasattr(e, "code") or not isinstance(e, int):\n            return 1', '        if not hasattr(e, "code"):\n            return 1')
 M("C04", "simple_render_unchecked_markup", "ui/components/exception_trace.py",
-  '                    _safe_markup(str(self._exception), "<error>{}</error>")', '                    str(self._exception)')
+  '            _write_line(\n                io,\n                "<error>{}</error>".format(\n                    _safe_markup(str(self._exception), "<error>{}</error>")\n                ),\n            )',
+  '            io.write_line(\n                "<error>{}</error>".format(\n                    str(self._exception)\n                ),\n            )')
 M("C04", "render_line_unchecked_markup", "ui/components/exception_trace.py",
-  '        io.write_line("{}{}".format(indent * " ", _safe_markup(line)))', '        io.write_line("{}{}".format(indent * " ", line))')
+  '        _write_line(io, "{}{}".format(indent * " ", _safe_markup(line)))', '        io.write_line("{}{}".format(indent * " ", line))')
 M("C04", "handler_called_twice", "api/command/command.py",
   "        return getattr(handler, handler_method)(args, io, self)", "        getattr(handler, handler_method)(args, io, self)\n        return getattr(handler, handler_method)(args, io, self)")
 M("C04", "errors_swallowed_silently", "console_application.py",
@@ -262,8 +265,15 @@ M("C17", "ascii_singleton_shared", "ui/style/border_style.py",
 M("C17", "table_style_singleton", "ui/style/table_style.py",
   "    def solid(cls):  # type: () -> TableStyle\n        style = TableStyle()", "    def solid(cls):  # type: () -> TableStyle\n        if cls._solid is None:\n            cls._solid = TableStyle()\n        style = cls._solid")
 M("C17", "snippet_cache_by_line_only", "ui/components/exception_trace.py",
-  "                        if (frame, 2, 2) not in self._FRAME_SNIPPET_CACHE:\n                            code_lines = Highlighter(\n                                supports_utf8=io.supports_utf8()\n                            ).code_snippet(frame.file_content, frame.lineno,)\n\n                            self._FRAME_SNIPPET_CACHE[(frame, 2, 2)] = code_lines\n\n                        code_lines = self._FRAME_SNIPPET_CACHE[(frame, 2, 2)]\n",
-  "                        ck = (frame.function, frame.lineno)\n                        if (ck, 2, 2) not in self._FRAME_SNIPPET_CACHE:\n                            code_lines = Highlighter(\n                                supports_utf8=io.supports_utf8()\n                            ).code_snippet(frame.file_content, frame.lineno,)\n\n                            self._FRAME_SNIPPET_CACHE[(ck, 2, 2)] = code_lines\n\n                        code_lines = self._FRAME_SNIPPET_CACHE[(ck, 2, 2)]\n")
+  "                        cache_key = (frame, 2, 2, io.supports_utf8())\n",
+  "                        cache_key = ((frame.function, frame.lineno), 2, 2, io.supports_utf8())\n")
+M("C20", "snippet_cache_ignores_utf8", "ui/components/exception_trace.py",
+  "                        cache_key = (frame, 2, 2, io.supports_utf8())\n",
+  "                        cache_key = (frame, 2, 2)\n")
+M("C20", "report_line_fallback_removed", "ui/components/exception_trace.py",
+  "    try:\n        io.write_line(line)\n    except ValueError:\n        io.write_line(_strip_tags(line))\n", "    io.write_line(line)\n")
+M("C17", "default_lists_handed_out", "api/args/format/argument.py",
+  "        if isinstance(self._default, list):\n            # A copy: the list ends up in the hands of user code as the value it parsed\n            return list(self._default)\n\n", "")
 M("C17", "render_consumes_header", "ui/components/table.py",
   "                rows.pop(0),\n", "                (self._header_row.pop(0), self._header_row.insert(0, 'seen'), rows.pop(0))[2],\n")
 M("C17", "parser_options_leak", "args/default_args_parser.py",
